@@ -335,6 +335,7 @@ type c09Step struct {
 	Exp   c09Exp          `json:"exp"`
 	Skip  []string        `json:"skip"`
 	Pre   map[string]bool `json:"pre"` // per semantics (I, g0, g1): deviation preinc-missing-index applies to this step's result
+	Mni   map[string]bool `json:"mni"` // per semantics: the store goes THROUGH a missing member named like a method (deviation method-name-intermediate)
 	Dev   json.RawMessage `json:"dev"` // {} of g0/g1 -> c09Exp, or [] when empty
 	Taint struct {
 		G0 bool `json:"g0"`
@@ -372,6 +373,8 @@ func (r c09Rhs) String() string {
 		return "{k: 3}"
 	case "path":
 		return r.P.String()
+	case "pluck":
+		return r.P.String() + ".pluck(\"k\", \"n\")"
 	}
 	return "null"
 }
@@ -379,7 +382,7 @@ func (r c09Rhs) String() string {
 // c09HasResult says whether the statement of op prints an "R" line.
 func c09HasResult(op c09Op) bool {
 	switch op.Kind {
-	case "read", "preinc", "postinc", "predec", "postdec":
+	case "read", "preinc", "postinc", "predec", "postdec", "pop", "popfirst", "push":
 		return true
 	}
 	return false
@@ -408,15 +411,26 @@ func c09Stmt(op c09Op) string {
 		return "print \"R\", " + p
 	case "call":
 		return op.F + "(" + p + ")"
-	case "loop":
-		body := map[string]string{"lr": "e = 9", "lk": "e.k = 9", "li": "e[0] = 9"}[op.F]
+	case "loop", "loop2":
+		body, ok := map[string]string{"lr": "e = 9", "lk": "e.k = 9", "li": "e[0] = 9", "lp": "e++", "lm": "--e", "la": "e += 2", "lq": "e.k++"}[op.F]
+		if !ok {
+			infra("C09: unknown loop body %q", op.F)
+		}
+		if op.Kind == "loop2" {
+			return "for (g, e in " + p + ") { " + body + " }"
+		}
 		return "for (e in " + p + ") { " + body + " }"
+	case "pop", "popfirst":
+		return "print \"R\", " + p + "." + op.Kind + "()"
+	case "push":
+		return "print \"R\", " + p + ".push(6)"
 	}
 	infra("C09: unknown op kind %q", op.Kind)
 	return ""
 }
 
-const c09Funcs = "function fk(v) { v.k = 7 }\nfunction fi(v) { v[0] = 7 }\nfunction fg(v) { v[2] = 7 }\nfunction fr(v) { v = 7 }\n"
+const c09Funcs = "function fk(v) { v.k = 7 }\nfunction fi(v) { v[0] = 7 }\nfunction fg(v) { v[2] = 7 }\nfunction fr(v) { v = 7 }\n" +
+	"function fp(v) { v++ }\nfunction fa(v) { v += 2 }\nfunction fq(v) { v.k++ }\n"
 const c09Doc = `{"k": [1, {"k": 2}], "n": 5}`
 
 // c09Program renders a history: after every statement every variable and $ are printed.
@@ -458,7 +472,7 @@ type c09Obs struct {
 
 // c09Match decides whether the observation is the one semantics `sem` prescribes.
 // It returns ok and, if not ok, a description of the first difference.
-func c09Match(v *c09Vec, sem string, o c09Obs, arrayRoot bool, pre, wild *bool) (bool, string) {
+func c09Match(v *c09Vec, sem string, o c09Obs, arrayRoot bool, pre, wild, mni *bool) (bool, string) {
 	li := 0
 	next := func(tag string) (string, bool) {
 		if li >= len(o.lines) {
@@ -490,6 +504,10 @@ func c09Match(v *c09Vec, sem string, o c09Obs, arrayRoot bool, pre, wild *bool) 
 			if li != len(o.lines) {
 				return false, fmt.Sprintf("step %d: expected a runtime error, but output continues: %q", i+1, o.lines[li])
 			}
+			return true, ""
+		}
+		if mni != nil && st.Mni[sem] && o.class == "runtime" && li == len(o.lines) {
+			*mni = true // the store that must create the member was refused: explained by method-name-intermediate
 			return true, ""
 		}
 		skip := map[string]bool{}
@@ -582,6 +600,12 @@ func (s *c09Stats) tagVec(v *c09Vec) {
 	if last.Pre["I"] || last.Pre["g0"] || last.Pre["g1"] {
 		s.tags["dev:preinc-missing-index"]++
 	}
+	if last.Mni["I"] {
+		s.tags["dev:method-name-intermediate"]++
+	}
+	if op.Kind == "set" && op.R.R == "pluck" {
+		s.tags["rhs:pluck:"+last.Exp.St]++
+	}
 	if len(last.Skip) > 0 {
 		s.tags["skip"]++
 	}
@@ -591,12 +615,15 @@ func (s *c09Stats) tagVec(v *c09Vec) {
 var c09MustTags = []string{"law:frame", "law:readback", "law:alias", "law:readpure", "law:tree", "law:others", "law:incdec", "law:compound",
 	"law:updframe", "law:agree", "law:status", "op:set:ok", "op:set:error", "op:read:ok", "op:read:error", "op:call:ok", "op:call:error", "op:loop:ok",
 	"op:loop:error", "op:cadd:ok", "op:cstr:ok", "op:csub:ok", "op:preinc:ok", "op:postinc:ok", "op:predec:ok", "op:postdec:ok", "op:postinc:error",
-	"dev:g0:ok", "dev:g1:ok", "dev:g1:wild", "dev:g1:error", "dev:preinc-missing-index", "skip"}
+	"dev:g0:ok", "dev:g1:ok", "dev:g1:wild", "dev:g1:error", "dev:preinc-missing-index", "skip",
+	"law:meth", "law:loopcopy", "law:callcopy", "law:pluck", "op:pop:ok", "op:popfirst:ok", "op:push:ok", "op:loop2:ok", "op:loop2:error", "rhs:pluck:ok",
+	"dev:method-name-intermediate"}
 
 var c09DevText = map[string]string{
-	"alias-length":         "a change of an array's length made through one reference is not seen through the others",
-	"read-pads-array":      "reading an index past the end of an array pads the array with nulls",
-	"preinc-missing-index": "prefix ++/-- on an index of an array that does not exist yet yields null instead of the new value",
+	"alias-length":             "a change of an array's length made through one reference is not seen through the others",
+	"read-pads-array":          "reading an index past the end of an array pads the array with nulls",
+	"preinc-missing-index":     "prefix ++/-- on an index of an array that does not exist yet yields null instead of the new value",
+	"method-name-intermediate": "an assignment THROUGH a missing member whose key is the name of a method of objects (length, pluck) is refused with a runtime error instead of creating the member as an object",
 }
 
 // c09Judge compares one run with the three semantics.
@@ -605,7 +632,7 @@ func c09Judge(c *Ctx, v *c09Vec, r Result, arrayRoot bool, prog string, stats *c
 		return
 	}
 	o := c09Obs{class: r.Class, lines: c09Lines(r.Stdout), js: r.JS, jsErr: r.JSErr}
-	okI, whyI := c09Match(v, "I", o, arrayRoot, nil, nil)
+	okI, whyI := c09Match(v, "I", o, arrayRoot, nil, nil, nil)
 	last := v.Steps[len(v.Steps)-1]
 	if okI {
 		return
@@ -618,8 +645,8 @@ func c09Judge(c *Ctx, v *c09Vec, r Result, arrayRoot bool, prog string, stats *c
 		devs []string
 	}
 	for _, a := range []alt{{"I", nil}, {"g0", []string{"alias-length"}}, {"g1", []string{"read-pads-array"}}} {
-		pre, wild := false, false
-		ok, _ := c09Match(v, a.sem, o, arrayRoot, &pre, &wild)
+		pre, wild, mni := false, false, false
+		ok, _ := c09Match(v, a.sem, o, arrayRoot, &pre, &wild, &mni)
 		if !ok {
 			continue
 		}
@@ -629,6 +656,9 @@ func c09Judge(c *Ctx, v *c09Vec, r Result, arrayRoot bool, prog string, stats *c
 		}
 		if pre {
 			need = append(need, "preinc-missing-index")
+		}
+		if mni {
+			need = append(need, "method-name-intermediate")
 		}
 		for _, d := range need {
 			if !c.OpenDev(d) {
@@ -734,7 +764,7 @@ func c09Cfg(mode string, maxOps int, wide bool) string {
 func c09RandomHistories(seed int64, n, depth int) string {
 	r := rand.New(rand.NewSource(seed*104729 + 17))
 	sels := []map[string]any{{"s": "key", "k": "k"}, {"s": "key", "k": "j"}, {"s": "idx", "i": 0}, {"s": "idx", "i": 1},
-		{"s": "idx", "i": 2}, {"s": "idx", "i": 5}, {"s": "idx", "i": -1}, {"s": "idx", "i": -3}}
+		{"s": "idx", "i": 2}, {"s": "idx", "i": 5}, {"s": "idx", "i": -1}, {"s": "idx", "i": -3}, {"s": "key", "k": "length"}, {"s": "idx", "i": 1}, {"s": "idx", "i": 3}}
 	path := func(maxd int) map[string]any {
 		ss := []any{}
 		d := r.Intn(maxd + 1)
@@ -747,9 +777,23 @@ func c09RandomHistories(seed int64, n, depth int) string {
 	hs := make([]any, 0, n)
 	for i := 0; i < n; i++ {
 		h := []any{}
+		var shrunk map[string]any // the path of the array the previous operation shrank
 		for k := 0; k < depth; k++ {
 			var op map[string]any
-			switch w := r.Intn(20); {
+			if shrunk != nil && r.Intn(5) < 3 {
+				// shrink it again, or store past its new end: the gap must be filled with nulls, not with what was removed
+				if r.Intn(2) == 0 {
+					op = map[string]any{"kind": "pop", "p": shrunk, "r": none, "f": ""}
+				} else {
+					ss := append(append([]any{}, shrunk["sels"].([]any)...), map[string]any{"s": "idx", "i": 1 + r.Intn(3)})
+					op = map[string]any{"kind": "set", "p": map[string]any{"base": shrunk["base"], "sels": ss}, "r": map[string]any{"r": "num", "n": 7}, "f": ""}
+					shrunk = nil
+				}
+				h = append(h, op)
+				continue
+			}
+			shrunk = nil
+			switch w := r.Intn(27); {
 			case w < 9:
 				var rhs map[string]any
 				switch r.Intn(7) {
@@ -770,9 +814,17 @@ func c09RandomHistories(seed int64, n, depth int) string {
 			case w < 15:
 				op = map[string]any{"kind": "read", "p": path(3), "r": none, "f": ""}
 			case w < 18:
-				op = map[string]any{"kind": "call", "p": path(2), "r": none, "f": []string{"fk", "fi", "fg", "fr"}[r.Intn(4)]}
+				op = map[string]any{"kind": "call", "p": path(2), "r": none, "f": []string{"fk", "fi", "fg", "fr", "fp", "fa", "fq"}[r.Intn(7)]}
+			case w < 20:
+				op = map[string]any{"kind": []string{"loop", "loop2"}[r.Intn(2)], "p": path(2), "r": none, "f": []string{"lr", "lk", "li", "lp", "lm", "la", "lq"}[r.Intn(7)]}
+			case w < 25:
+				// length-changing methods (pop twice as often: what it removes stays in the spare capacity)
+				op = map[string]any{"kind": []string{"pop", "pop", "popfirst", "push"}[r.Intn(4)], "p": path(2), "r": none, "f": ""}
+				if op["kind"] == "pop" {
+					shrunk = op["p"].(map[string]any)
+				}
 			default:
-				op = map[string]any{"kind": "loop", "p": path(2), "r": none, "f": []string{"lr", "lk", "li"}[r.Intn(3)]}
+				op = map[string]any{"kind": "set", "p": path(2), "r": map[string]any{"r": "pluck", "p": path(2)}, "f": ""}
 			}
 			h = append(h, op)
 		}
@@ -955,9 +1007,10 @@ func checkC09(c *Ctx) {
 	c.Assume("indices are integers; fractional indices (truncated by the code) are not fixed by the statement and are not generated")
 	c.Assume("what a READ through an unset variable (x.k, x[0] with x never assigned) does to that variable is left open: the value read (null) and every other variable and $ are compared, the variable itself is not, and the history ends there")
 	c.Assume("assignment THROUGH an explicit null (o.n.k = 1 with o.n null), a key of an array, an index of an object, `x = y` with y unset, arithmetic updates of a container (C05), ++/-- on a member of a scalar (C11) and insertions that would create a cycle (C17/C04) are not generated: the statement does not fix them")
-	c.Assume("length-changing methods are not used (C15); an empty array written as null by -o is C04's matter and tolerated in the -o comparison")
+	c.Assume("of the methods only pop, popfirst and push(6) on arrays (reached through any path, also through a second reference) and pluck(\"k\", \"n\") on objects are used; the other methods are C15's / C16's; an empty array written as null by -o is C04's matter and tolerated in the -o comparison")
+	c.Assume("a PURE read of a member an object does not have but whose key names a method of objects (x.length, x.pluck) yields that method: not fixed by the statement, not generated; stores to and through such members are")
 	c.Assume("values: small integers, two strings, fresh [8, 9] and {k: 3} literals, aliases of x / y / $.k; document {\"k\": [1, {\"k\": 2}], \"n\": 5} both as the root object and as element 0 of a root array")
-	c.Assume("the value of a for-in loop variable after the loop is not observed")
+	c.Assume("the value of a for-in loop variable after the loop is not observed; loops run over arrays and objects (one- and two-variable form), other iterables are C07's")
 	c.Assume("read family: programs that end in a runtime error have no -o document and are not compared")
 	pool := c.Pool()
 	pool.Timeout = 120 * time.Second
@@ -967,19 +1020,27 @@ func checkC09(c *Ctx) {
 	if c.Thorough() {
 		depth = 4
 	}
-	only := os.Getenv("C09_FAMILY") // development: run one family only ("given")
-	if only == "" {
-		c09RunMC(c, pool, "depth", c09Cfg("depth", depth, false), nil, stats)
-		c09RunMC(c, pool, "breadth", c09Cfg("breadth", 1, c.Thorough()), nil, stats)
+	only := os.Getenv("C09_FAMILY") // development: run one family only
+	fam := func(name string, f func()) {
+		if only == "" || only == name {
+			t0 := time.Now()
+			f()
+			if only != "" || os.Getenv("C09_TIMING") != "" {
+				fmt.Fprintf(os.Stderr, "C09 family %s: %.1fs (histories so far %d)\n", name, time.Since(t0).Seconds(), stats.n)
+			}
+		}
 	}
+	fam("depth", func() { c09RunMC(c, pool, "depth", c09Cfg("depth", depth, false), nil, stats) })
+	fam("breadth", func() { c09RunMC(c, pool, "breadth", c09Cfg("breadth", 1, c.Thorough()), nil, stats) })
+	fam("names", func() { c09RunMC(c, pool, "names", c09Cfg("names", 1, false), nil, stats) })
 	simN, simD := 2000, 8
 	if c.Thorough() {
 		simN, simD = 30000, 10
 	}
-	c09RunMC(c, pool, "given", c09Cfg("given", simD, false), map[string]string{"given.json": c09RandomHistories(c.Seed, simN, simD)}, stats)
-	if only == "" {
-		c09ReadFamily(c, pool)
-	}
+	fam("given", func() {
+		c09RunMC(c, pool, "given", c09Cfg("given", simD, false), map[string]string{"given.json": c09RandomHistories(c.Seed, simN, simD)}, stats)
+	})
+	fam("read", func() { c09ReadFamily(c, pool) })
 
 	for _, t := range c09MustTags {
 		if stats.tags[t] == 0 && only == "" {
@@ -989,7 +1050,8 @@ func checkC09(c *Ctx) {
 	c.Set("exercised", stats.tags)
 	c.Set("exhaustive", true)
 	c.Set("rule", "MC_Heap emits every history (depth: <= MaxOps operations over the 39-operation alphabet Small; breadth: 14 prefixes x every operation of Big = "+
-		"{set x 8 right-hand sides, += -= +=str, ++/-- pre/post, read, 4 mutating calls, 3 for-in loops} x every path of depth <= 2 (thorough: <= 3) over x, y, $; "+
+		"{set x 8 right-hand sides, += -= +=str, ++/-- pre/post, read, 4 mutating calls, 3 for-in loops} x every path of depth <= 2 (thorough: <= 3) over x, y, $, plus {pop, popfirst, push, "+
+		"3 calls and 11 loops (one/two variables) that step or update the parameter / loop variable, pluck} x every path of depth <= 1 and 5 deeper ones (thorough: all); names: 9 prefixes x {set x 3, 7 updates, read, 2 calls, 1 loop} x every path of depth <= 2 over the keys length, pluck, push, k and index 0; "+
 		"given: seeded random histories of up to sim_depth operations over any path of depth <= 3) with x, y, $ after every operation; each is run on the document as root object and as element 0 of a root array; "+
 		"non-trivial = at least two operations; distinct by program text. Read family: seeded random assignment-free expressions, -o document vs input")
 	c.Set("checker_cmd", "tlc MC_Heap (Mode depth / breadth / given); replay through lang.EvalProgram + GetRootJson")
